@@ -63,6 +63,16 @@
             check(format!(",{}", good), None, &mut failures);
             check(format!("{},", good), None, &mut failures);
         }
+        // 2b. thousands separators in the group that FOLLOWS a large unit: the same placement rules apply there (a group of only
+        // zeros before the first separator, a leading separator, a short or long group are malformed whatever precedes the unit)
+        for (head, hv) in [("3万", 30_000u128), ("259万", 2_590_000), ("1億", 100_000_000), ("5兆", 5_000_000_000_000), ("二億", 200_000_000), ("1兆2億", 1_000_200_000_000)] {
+            for (g, gv) in [("1,000", 1000u128), ("2,300", 2300), ("9,999", 9999)] {
+                check(format!("{}{}", head, g), Some((hv + gv).to_string()), &mut failures);
+            }
+            for bad in ["0,500", "00,500", "000,500", ",500", "2,30", "2,3000", "2,,300", "0,000", "1,00", "12,34"] {
+                check(format!("{}{}", head, bad), None, &mut failures);
+            }
+        }
         // 3. groups with small units, joined by the large units 兆 億 万; groups in Arabic or kanji notation
         let groups = [0u32, 1, 7, 10, 11, 20, 105, 110, 1000, 1001, 2345, 9999];
         let units: [(u32, &str); 4] = [(12, "兆"), (8, "億"), (4, "万"), (0, "")];
